@@ -4,6 +4,8 @@ CONSTANTS
   MaxDepth = 3
   NSlices = 1
   Slice = 0
+  OuterNSlices = 1
+  OuterSlice = 0
 SPECIFICATION Spec
 INVARIANTS Emit
 CHECK_DEADLOCK FALSE
